@@ -25,8 +25,11 @@ for name in names:
         print(name, "DOES NOT APPLY", a.stderr[:200]); continue
     suite = sh("/venv/bin/python -m pytest -q -p no:cacheprovider 2>&1 | tail -1", cwd=SCR).stdout.strip()
     alarms = {}
+    only = os.environ.get("BENIGN_CHECKS")  # e.g. C07,C09: re-run only these checks (after a change to their generators)
     for i in range(1, 21):
         pid = f"C{i:02d}"
+        if only and pid not in only.split(","):
+            continue
         c = sh(f"./check {pid} --tier quick --src {SCR} --no-evidence", cwd=HERE)
         if c.returncode != 0:
             alarms[pid] = [l.strip()[:200] for l in c.stdout.splitlines() if "clause=" in l or "HARNESS" in l][:3]
